@@ -1462,6 +1462,13 @@ MUTANTS = [
      'edits': [(K_, "        'kJ/K': 1.38064852e-26,\n", ""), (K_, "        'kcal/K': 3.2998292e-27,\n", ""),
                (K_, "    try:\n        return kb_dict[units]", "    for unit in ('J/K', 'cal/K'):\n"
                 "        kb_dict['k' + unit] = kb_dict[unit] * 1.e3\n    try:\n        return kb_dict[units]")]},
+    # black-box round 7
+    {'name': 'a unit with a factor but no declared type takes the type of its first partner, remembered in type_dict',
+     'expect': ('EFFECT.shared-state', 'convert_unit'),
+     'edits': [(K_, "    try:\n        initial_type = type_dict[initial]\n    except KeyError:\n",
+                "    if initial not in type_dict and initial in unit_dict and final in type_dict:\n"
+                "        type_dict.setdefault(initial, type_dict[final])\n"
+                "    try:\n        initial_type = type_dict[initial]\n    except KeyError:\n")]},
 ]
 
 # behaviour-preserving rewrites (white-box round 2, part B, reduced to their essential edits): must stay silent
